@@ -485,7 +485,25 @@ def pairs():
                 await b.probe('%s.borrow enter[released in this time step]' % kind,
                               lambda: block.__aenter__())
                 await block.__aexit__(None, None, None)
-            return [('%s.borrow[available]' % kind, borrow_available),
+            async def leave_by_exception(b):
+                # giving back also lets the others run when the block is left by an exception
+                for how, make in (('borrow', lambda res: res.borrow(a=1)),
+                                  ('claim', lambda res: res.claim(a=2))):
+                    res = make_res()
+                    block = make(res)
+                    await block.__aenter__()
+                    error = KeyError('left by exception')
+                    await b.probe('%s.%s exit[by exception]' % (kind, how),
+                                  lambda: block.__aexit__(KeyError, error, None))
+                res = make_res()
+                async with res.borrow(a=2) as share:
+                    block = share.borrow(a=1)
+                    await block.__aenter__()
+                    error = KeyError('left by exception')
+                    await b.probe('%s nested borrow exit[by exception]' % kind,
+                                  lambda: block.__aexit__(KeyError, error, None))
+            return [('%s.borrow[left by exception]' % kind, leave_by_exception),
+                    ('%s.borrow[available]' % kind, borrow_available),
                     ('%s.borrow[zero]' % kind, borrow_zero),
                     ('%s.borrow[all]' % kind, borrow_all),
                     ('%s.claim[available]' % kind, claim_available),
